@@ -98,6 +98,7 @@ def addr_ok(v, width32):
     return bool(re.match(r"^0x[0-9a-f]{16}$", v))
 
 
+IP_REGISTER = {"x86": "eip", "amd64": "rip", "arm": "pc", "arm64": "pc", "ppc": "srr0", "ppc64": "srr0", "sparc": "pc", "mips": "pc", "mips64": "pc"}
 HEXSTR = re.compile(r"^0x[0-9a-f]{1,16}$")
 
 
@@ -153,7 +154,7 @@ def doc_conforms(t, v, path="$"):
 class C15(PropBase):
     pid = "C15"
     coq_dirs = ["Base", "C08", "C19", "C15"]
-    translators = ["c15_enums.py", "bitflip_consts.py", "c15_schema.py", "c15_keys.py", "c15_fmt.py"]
+    translators = ["c15_enums.py", "bitflip_consts.py", "c15_schema.py", "c15_keys.py", "c15_fmt.py", "c15_regs.py"]
     bins = ["c15"]
     has_model_driver = False        # two-stage: the model renders from the facts the harness prints (see extra)
     impl_mem_gb = 6
@@ -166,42 +167,46 @@ class C15(PropBase):
             "Limit::Error, pid, extra inlines. The harness calls the real print_json(pretty=false/true). Non-trivial = the report has a crashing_thread copy "
             "or a frame with a function; distinct = distinct case lines")
     trusted_base = [
-        "Coq 8.16.1 kernel (vm_compute in the finite checks c15_enumerations / c15_source_keys_documented / *_rejects and the non-vacuity Examples); "
-        "standard library DecimalN (N.to_uint / N.of_uint round trip)",
-        "hand-written model C15/Model.v of print_json, json_registers and Address Display: the WHOLE document except soft_errors and "
-        "possible_bit_flips[].confidence; tied to the code by comparing the model's serialisation byte for byte with the real compact output (those two members "
-        "removed, re-rendered by serde_json::to_string) on every case and both build profiles",
-        "serde_json's writer is ASSUMED to emit what [serialise] emits; checked on every case, and the model's own parser must accept the real document",
+        "Coq 8.16.1 kernel (vm_compute in the finite checks c15_enumerations / c15_source_keys_documented / c15_format_pinned / c15_register_tables / *_rejects and the "
+        "non-vacuity Examples); standard library DecimalN (N.to_uint / N.of_uint round trip), Permutation, Sorted",
+        "hand-written model C15/Model.v of print_json, json_registers and Address Display: the WHOLE document (soft_errors included since round 5) except "
+        "possible_bit_flips[].confidence; C15/Pretty.v models serde_json's PrettyFormatter (two-space indent). Tied to the code by comparing the model's compact AND pretty "
+        "renderings byte for byte with the real output on every case and both build profiles (pretty: with print_json's own bytes whenever nothing had to be removed from "
+        "the view, else with serde_json::to_string_pretty of the view)",
+        "serde_json's writer is ASSUMED to emit what [serialise] / [pretty] emit; checked on every case, and the model's own parsers (parse, parse_ws) must accept the real documents",
         "extraction ExtrOcamlBasic; ocaml/c15/main.ml (facts reader; bytes <-> code points go through the extracted Gallina UTF-8 codec of c15_utf8); harness/src/bin/c15.rs + c14.rs (dump synthesis, facts printer: "
-        "string-valued members such as debug ids, versions, crash reasons are read through the same public accessors print_json calls and passed through)",
+        "string-valued members such as debug ids, versions, crash reasons are read through the same public accessors print_json calls and passed through; the state's soft_errors value is passed as its compact text)",
         "translate/c15_schema.py: a parser of the ```rust,ignore block of json-schema.md (objects, arrays, alternatives, leaf types, the register map notation; the "
-        "abbreviated crashing_thread listing must be contained in threads[] and is replaced by it) — aborts on anything else; translate/c15_keys.py: regexes over "
-        "print_json's json! keys, map[..] / insert(..) calls and the serde-derived bit-flip structs; translate/c15_enums.py as before",
+        "abbreviated crashing_thread listing must be contained in threads[] and is replaced by it) - aborts on anything else; translate/c15_keys.py: regexes over "
+        "print_json's json! keys, map[..] / insert(..) calls and the serde-derived bit-flip structs; translate/c15_fmt.py: regexes over impl Display for Address, From<Address> for String, "
+        "json_hex, set_print_context and impl Serialize for Limit; translate/c15_regs.py: regexes over the CpuContext impls of minidump/src/context.rs (type Register, const REGISTERS), "
+        "format_register and json_registers; translate/c15_enums.py as before",
         "props/c15_schema.py (hand transcription) and the Python twin of [conforms] over the translated tree must agree on every report; Python's json module is the "
         "oracle's independent JSON parser",
     ]
     assumptions = [
-        "partial: serde_json's byte-level writer and pretty printer are assumed (compared, not verified); soft_errors and confidence are outside the model "
-        "(oracle: array of objects / exact binary32 + C19 link)",
-        "wf_state (hypothesis of c15_schema_conformance / c15_address_widths) is an executable predicate; the run evaluates it on every real state and reports a "
-        "state outside it (only Os::Unknown, finding F-C15a, is a recorded exception); its arithmetic clauses are the C08 / C11 / C14 conclusions",
-        "string contents the model passes through (debug_id, code_id, version, crash reason, last_error_value texts, instruction text) are not modelled beyond being strings",
+        "partial: serde_json's byte-level writer and pretty printer are assumed (modelled by serialise / pretty, compared byte for byte, not verified); confidence is outside the model "
+        "(oracle: exact binary32 + C19 link)",
+        "wf_state and state_scalar (hypotheses of c15_report_valid / c15_schema_conformance / c15_address_widths) are executable predicates; the run evaluates them on every real state and "
+        "reports a state outside them (only Os::Unknown, finding F-C15a, is a recorded exception); wf_state's arithmetic clauses are the C08 / C11 / C14 conclusions",
+        "string contents the model passes through (debug_id, code_id, version, crash reason, last_error_value texts, instruction text) are not modelled beyond being strings of scalar values",
     ]
     manifest = {
-        "text": "partial: serde_json's writer is assumed (modelled by a Gallina serialiser that the run compares with the real compact bytes of the whole document on "
-                "every case); soft_errors and the binary32 confidence are outside the model. Theorems (Coq, all values / all process states, both build profiles): "
-                "c15_serialise_parse — parse (serialise v) = Some v for every JSON value over arbitrary code points and integers (escaping total and correct; no raw "
-                "control character); c15_utf8 — the UTF-8 bytes of every report over Unicode scalar values are accepted by a strict decoder and decode to the serialised code points; c15_schema_conformance — for every well-formed state the report is produced without trap and conforms to DOC_SCHEMA, the schema "
-                "tree translate/c15_schema.py regenerates from json-schema.md on every run: every member name at every level documented and unique, every value of the "
-                "documented type or null, every enumeration string documented, every hex string 0x + 1..16 lower-case digits; c15_address_widths — every Address-valued "
-                "member of the whole report is padded to the state's pointer width (16 digits for 64-bit / unknown, >= 8 for 32-bit, exactly 8 below 2^32: c15_hex_width); "
-                "c15_counts / c15_frame_numbers / c15_offsets / c15_modules_mirror (incl. filename = basename, cert_subject and missing_symbols looked up by that name) / "
-                "c15_crashing_thread_copy; finite checks over tables regenerated from the source each run: c15_enumerations, c15_source_keys_documented (every member name "
-                "in print_json's source is documented). The Gallina checkers [conforms DOC_SCHEMA] and [widths] and the hypothesis [wf_state] are also evaluated on every real "
-                "output / state of the run. Generated states cover every optional member (coverage counts in the evidence).",
-        "note": "Trusted: Coq kernel + DecimalN; hand-written model (correspondence-checked byte for byte against print_json's compact output; pretty output is compared as a "
-                "value by the oracle); serde_json writer assumed; schema translator + hand transcription cross-checked. Not exhibited by the model: serde_json's byte-level "
-                "writer, soft_errors, confidence, the text of pass-through strings.",
+        "text": "partial: serde_json's writer is assumed (modelled by Gallina serialisers for the compact and the pretty form that the run compares byte for byte with the real output of the whole "
+                "document on every case); the binary32 confidence is outside the model. Theorems (Coq, all values / all process states, both build profiles): "
+                "c15_report_valid - for every well-formed state whose strings are Unicode scalar values print_json produces a report without trap that conforms to DOC_SCHEMA (the schema tree "
+                "translate/c15_schema.py regenerates from json-schema.md on every run: member names documented and unique, documented types or null, documented enumeration strings, hex strings 0x + 1..16 "
+                "lower-case digits), and BOTH renderings (compact, pretty) are valid UTF-8 (strict decoder) and are accepted by an RFC 8259 parser with insignificant whitespace, denoting exactly the report; "
+                "c15_serialise_parse / c15_pretty_parse / c15_utf8 / c15_pretty_utf8 / c15_schema_conformance are its parts, stated for every JSON value; c15_soft_errors - the free-form soft-errors stream "
+                "is reported only as an array of objects, for every stream content (finding F-C15d fixed in /repo); c15_address_widths + c15_register_tables - every Address-valued member is padded to the state's "
+                "pointer width, register names never collide with Address members (register files regenerated from context.rs); c15_address_denotes / c15_address_injective / c15_modules_denote - the digits denote "
+                "the FULL 64-bit value for every pointer width (32-bit: minimum padding, never truncation); c15_format_semantics / c15_format_pinned - address_str and the proc_limits values are exactly what the "
+                "format strings / serializer arms translate/c15_fmt.py reads off the source write; c15_proc_limits - limits sorted by name, a permutation of the table, numeric limits are JSON numbers for every u64; "
+                "c15_counts / c15_frame_numbers / c15_offsets / c15_modules_mirror / c15_crashing_thread_copy; finite checks over regenerated tables: c15_enumerations, c15_source_keys_documented. The Gallina "
+                "checkers [conforms DOC_SCHEMA], [widths], [parse_ws] and the hypotheses [wf_state], [state_scalar], [regs_from_table] are also evaluated on every real output / state of the run. Generated states cover "
+                "every optional member, malformed soft-errors streams and 32-bit platforms with addresses >= 2^32 (coverage counts in the evidence).",
+        "note": "Trusted: Coq kernel + DecimalN; hand-written model (correspondence-checked byte for byte against print_json's compact and pretty output); serde_json writer assumed; schema translator + hand "
+                "transcription cross-checked. Not exhibited by the model: serde_json's byte-level writer, confidence, the text of pass-through strings.",
     }
 
     def setup(self):
@@ -543,6 +548,13 @@ class C15(PropBase):
                         return "crashing_thread.frames[%d]: registers %s" % (fi, "missing" if fi == 0 else "unexpected")
                     if regs is not None and any(not re.match(r"^0x([0-9a-f]{8}|[0-9a-f]{16})$", v) for v in regs.values()):
                         return "crashing_thread.frames[0].registers: malformed value"
+                    # "the indexed thread plus ITS registers": frame 0 is the context frame, so the instruction-pointer register of the
+                    # copy must be frame 0's offset (registers of another frame / thread would differ)
+                    if regs is not None and a.get("trust") == "context":
+                        ipn = IP_REGISTER.get((doc.get("system_info") or {}).get("cpu_arch"))
+                        if ipn in regs and int(regs[ipn], 16) != int(a["offset"], 16):
+                            return "crashing_thread.frames[0].registers.%s = %s but the frame's offset is %s" % (ipn, regs[ipn], a["offset"])
+                        self.__dict__["_ipchecks"] = self.__dict__.get("_ipchecks", 0) + (ipn in regs)
             elif ct is not None:
                 return "crashing_thread copy although thread %d has no frames" % idx
         elif ct is not None:
@@ -830,6 +842,9 @@ class C15(PropBase):
                             "another value from it than from the compact output")
                 elif ok != "1":
                     what = "correspondence: the model's parser does not accept / reproduce the real view"
+                elif wf == "R":
+                    what = ("the registers of the requesting thread's frame 0 are not taken from the register file of its raw context kind "
+                            "(REGISTER_TABLES regenerated from minidump/src/context.rs; hypothesis of c15_register_tables): unknown name or digit count")
                 elif wf != "1" and not os_unknown:
                     what = ("the hypotheses [wf_state] of theorem c15_schema_conformance do not hold on this real process state "
                             "(only Os::Unknown, finding F-C15a, is a recorded exception)")
@@ -848,6 +863,7 @@ class C15(PropBase):
                         out.append({"case": ctx["cases"][i], "profile": prof, "found_input": True, "what": what,
                                     "model": mview[max(0, j - 80):j + 120], "impl": view[max(0, j - 80):j + 120]})
         ctx["info"]["member_coverage_reports_with_member_present"] = dict(sorted(self.__dict__.get("_cov", {}).items()))
+        ctx["info"]["crashing_thread_ip_register_equals_offset_checks"] = self.__dict__.get("_ipchecks", 0)
         ctx["info"]["address_display_32bit_platforms"] = self.__dict__.get("_wide32", {})
         ctx["info"]["traces_validated_against_impl"] = compared
         ctx["info"]["correspondence_mismatches"] = mism
